@@ -53,6 +53,7 @@ typedef struct {
     int32_t *linemap;
     int32_t extrac;
     int32_t depth;
+    uint32_t tail_limit; /* bound on consecutive tail jumps that do not consume input */
     int32_t linemaplen;
     int32_t has_backref;
     enum {
@@ -171,6 +172,24 @@ static int64_t peg_convert_u64_s64(uint64_t from, int width) {
 } while (0)
 #define up1(s) ((s)->depth++)
 
+/* The last sub-rule of a choice, sequence, if, if-not (and a nested accumulate) is entered
+ * with a jump instead of a recursive call, so it does not use up `depth`. That must stay
+ * unbounded for recursion that consumes input, but a grammar such as {:main (+ "a" :main)}
+ * re-enters the same rule at the same position forever. A run of jumps with no input
+ * consumed in between that is longer than the number of rules in the grammar has re-entered
+ * some rule without progress; allow JANET_RECURSION_GUARD more (what real recursion would be
+ * allowed) and then fail like real recursion does. */
+#define tail_jump(s, newrule, newtext) do { \
+    rule = (newrule); \
+    if ((newtext) != tail_text) { \
+        tail_text = (newtext); \
+        tail_count = 0; \
+    } else if (++tail_count > (s)->tail_limit) { \
+        janet_panic("peg/match recursed too deeply"); \
+    } \
+    goto tail; \
+} while (0)
+
 /* Evaluate a peg rule
  * Pre-conditions: s is in a valid state
  * Post-conditions: If there is a match, returns a pointer to the next text.
@@ -182,6 +201,8 @@ static const uint8_t *peg_rule(
     PegState *s,
     const uint32_t *rule,
     const uint8_t *text) {
+    const uint8_t *tail_text = text;
+    uint32_t tail_count = 0;
 tail:
     switch (*rule) {
         default:
@@ -248,8 +269,7 @@ tail:
                 cap_load(s, cs);
             }
             up1(s);
-            rule = s->bytecode + args[len - 1];
-            goto tail;
+            tail_jump(s, s->bytecode + args[len - 1], text);
         }
 
         case RULE_SEQUENCE: {
@@ -261,8 +281,7 @@ tail:
                 text = peg_rule(s, s->bytecode + args[i], text);
             up1(s);
             if (!text) return NULL;
-            rule = s->bytecode + args[len - 1];
-            goto tail;
+            tail_jump(s, s->bytecode + args[len - 1], text);
         }
 
         case RULE_IF: {
@@ -272,8 +291,7 @@ tail:
             const uint8_t *result = peg_rule(s, rule_a, text);
             up1(s);
             if (!result) return NULL;
-            rule = rule_b;
-            goto tail;
+            tail_jump(s, rule_b, text);
         }
         case RULE_IFNOT: {
             const uint32_t *rule_a = s->bytecode + rule[1];
@@ -287,8 +305,7 @@ tail:
             } else {
                 cap_load(s, cs);
                 up1(s);
-                rule = rule_b;
-                goto tail;
+                tail_jump(s, rule_b, text);
             }
         }
 
@@ -433,8 +450,7 @@ tail:
             uint32_t tag = rule[2];
             int oldmode = s->mode;
             if (!tag && oldmode == PEG_MODE_ACCUMULATE) {
-                rule = s->bytecode + rule[1];
-                goto tail;
+                tail_jump(s, s->bytecode + rule[1], text);
             }
             CapState cs = cap_save(s);
             s->mode = PEG_MODE_ACCUMULATE;
@@ -1912,6 +1928,9 @@ static PegCall peg_cfun_init(int32_t argc, Janet *argv, int get_replace) {
     ret.s.text_end = ret.bytes.bytes + ret.bytes.len;
     ret.s.outer_text_end = ret.s.text_end;
     ret.s.depth = JANET_RECURSION_GUARD;
+    ret.s.tail_limit = (ret.peg->bytecode_len > UINT32_MAX - JANET_RECURSION_GUARD)
+                       ? UINT32_MAX
+                       : (uint32_t) ret.peg->bytecode_len + JANET_RECURSION_GUARD;
     ret.s.captures = janet_array(0);
     ret.s.tagged_captures = janet_array(0);
     ret.s.scratch = janet_buffer(10);
